@@ -391,6 +391,8 @@ struct EvalCase {
     post: Vec<(String, String)>,
     /// add the further files BEFORE the template under test (insertion order must not matter)
     files_first: bool,
+    /// compile with TmplGroup::new_dev
+    dev: bool,
 }
 #[derive(Clone)]
 enum FileSrc { Text(String), Rep(String, usize) }
@@ -439,7 +441,7 @@ fn ev(family: &'static str, src: String, checks: Vec<(&str, String, bool)>, vars
     EvalCase {
         family, path: "a".into(), src, name: String::new(),
         checks: checks.into_iter().map(|(s, e, q)| (s.to_string(), e, q)).collect(),
-        guards: vec![], vars, pool, pick, flat: None, any_diag: false, bmap1: family == "bmap", alts: vec![], files: vec![], post: vec![], files_first: false,
+        guards: vec![], vars, pool, pick, flat: None, any_diag: false, bmap1: family == "bmap", alts: vec![], files: vec![], post: vec![], files_first: false, dev: false,
     }
 }
 
@@ -1188,6 +1190,40 @@ fn family_c13(out: &mut Vec<Case>) {
     for sp in ["../lib/s", "/lib/s", "../lib/s.wxs", "/lib/../lib/s", "/./lib/s.wxs"] {
         c13_case("script", &format!("<wxs module=\"m\" src=\"{}\"/><view>{{{{ m.k }}}}</view>", sp), vec![("lib/s", "exports.k = 5", true)], "[\"5\"]", out);
     }
+    // inline and external modules of one file in every declaration order: each name reads its own module (C05: the module
+    // list is the bottom of the scope stack, index for index), at top level, under wx:for, and in a <template name> body
+    let inl = |n: &str| format!("<wxs module=\"{n}\">exports.v = 'inline-{n}'</wxs>", n = n);
+    let ext = |n: &str, f: &str| format!("<wxs module=\"{}\" src=\"../lib/{}\"/>", n, f);
+    let f1 = ("lib/f1", "exports.v = 'file-1'", true);
+    let f2 = ("lib/f2", "exports.v = 'file-2'", true);
+    let uses = "<view>{{ u.v }}</view><view>{{ f.v }}</view><view>{{ w.v }}</view><view>{{ g.v }}</view><block wx:for=\"{{ [1] }}\"><view>{{ g.v }}</view><view>{{ u.v }}</view></block><template name=\"t\"><view>{{ f.v }}</view><view>{{ w.v }}</view></template><template is=\"t\"/>";
+    let want = "[\"inline-u\", \"file-1\", \"inline-w\", \"file-2\", \"file-2\", \"inline-u\", \"file-1\", \"inline-w\"]";
+    let decls = [inl("u"), ext("f", "f1"), inl("w"), ext("g", "f2")];
+    let mut order = vec![0usize, 1, 2, 3];
+    // all 24 orders of the four declarations
+    fn perms4(k: usize, v: &mut Vec<usize>, out: &mut Vec<Vec<usize>>) { if k == v.len() { out.push(v.clone()); return; } for i in k..v.len() { v.swap(k, i); perms4(k + 1, v, out); v.swap(k, i); } }
+    let mut all = vec![];
+    perms4(0, &mut order, &mut all);
+    for o in all {
+        let head: String = o.iter().map(|i| decls[*i].clone()).collect();
+        c13_case("modules-mixed", &format!("{}{}", head, uses), vec![f1, f2], want, out);
+    }
+}
+
+/// dev mode hands the runtime the list of attribute names each element carries (`R.devArgs(N).A`): the names are constants
+/// of the template like any other (C12) -- compared as sets per element, in document order of the elements
+fn family_c12_dev(out: &mut Vec<Case>) {
+    for (tpl, want) in [
+        ("<div mark:uid=\"u1\" data:idx=\"0\" hidden title=\"x\" id=\"i\" class=\"c\" style=\"s\" slot=\"s2\"/>", "[[\":class\", \":id\", \":slot\", \":style\", \"data:idx\", \"hidden\", \"mark:uid\", \"title\"]]"),
+        ("<div mark:a=\"1\" mark:b=\"{{ a }}\"/><div data:a=\"1\" data:b=\"{{ a }}\"/><div mark:k=\"1\" data:k=\"2\"/>", "[[\"mark:a\", \"mark:b\"], [\"data:a\", \"data:b\"], [\"data:k\", \"mark:k\"]]"),
+        ("<slot name=\"n\" mark:m=\"1\" data:d=\"2\" v=\"{{ a }}\"/><slot mark:only=\"1\"/>", "[[\":name\", \"data:d\", \"mark:m\", \"v\"], [\"mark:only\"]]"),
+        ("<comp mark:mx=\"1\" data:dy=\"2\" p=\"{{ a }}\" change:p=\"{{ a }}\"/>", "[[\"data:dy\", \"mark:mx\", \"p\", \"p\"]]"),
+    ] {
+        let mut c = ev("c12", tpl.to_string(), vec![("devA", want.to_string(), true)], vec!["a".into()], pool_of(&["7"]), Pick::All);
+        c.path = format!("c12/dev/{}", out.len());
+        c.dev = true;
+        out.push(Case::Eval(c));
+    }
 }
 
 /// C05 through the editing API: replacing the body of one inline <wxs> module must not change which variable any name
@@ -1374,6 +1410,7 @@ fn all_cases() -> Vec<Case> {
     family_c12(&mut v);
     family_c13(&mut v);
     family_c05_post(&mut v);
+    family_c12_dev(&mut v);
     if known_mode() {
         family_hoist(&mut v);
         for k in KNOWN { if let Some(c) = decode_input(k) { v.push(c); } }
@@ -1401,6 +1438,7 @@ fn encode_eval_alt(c: &EvalCase, tuple: &[usize], alt: Option<(String, J)>) -> S
     if let Some((f, v)) = alt { o.push(("alts", J::Obj(vec![(f, v)]))); } else if !c.alts.is_empty() { o.push(("alts", J::Obj(c.alts.clone()))); }
     if !c.files.is_empty() { o.push(("gfiles", J::Arr(c.files.iter().map(|(p, s, sc)| J::Arr(vec![js(p), js(s), J::Bool(*sc)])).collect()))); }
     if c.files_first { o.push(("ffirst", J::Bool(true))); }
+    if c.dev { o.push(("devm", J::Bool(true))); }
     if !c.post.is_empty() { o.push(("post", J::Arr(c.post.iter().map(|(m, t)| J::Arr(vec![js(m), js(t)])).collect()))); }
     jo(o).text()
 }
@@ -1434,6 +1472,7 @@ fn decode_input(input: &str) -> Option<Case> {
                 bmap1: j.get("alts").is_some(),
                 alts: if let Some(J::Obj(o)) = j.get("alts") { o.clone() } else { vec![] },
                 files_first: j.get("ffirst").map(|d| d.truthy()).unwrap_or(false),
+                dev: j.get("devm").map(|d| d.truthy()).unwrap_or(false),
                 post: j.get("post").map(|f| f.arr().iter().map(|x| (x.arr()[0].str().unwrap_or("").to_string(), x.arr()[1].str().unwrap_or("").to_string())).collect()).unwrap_or_default(),
                 files: j.get("gfiles").map(|f| f.arr().iter().map(|x| (x.arr()[0].str().unwrap_or("").to_string(), x.arr()[1].str().unwrap_or("").to_string(), x.arr()[2].truthy())).collect()).unwrap_or_default(),
             }))
@@ -1467,7 +1506,7 @@ fn compile(id: usize, case: &Case, seen: &mut std::collections::HashSet<String>)
         Case::Eval(c) => {
             let c2 = c.clone();
             let r = std::panic::catch_unwind(move || {
-                let mut g = TmplGroup::new();
+                let mut g = if c2.dev { TmplGroup::new_dev() } else { TmplGroup::new() };
                 if c2.files_first { for (p, s, script) in &c2.files { if *script { g.add_script(p, s); } else { let _ = g.add_tmpl(p, s); } } }
                 let diags = g.add_tmpl(&c2.path, &c2.src);
                 if !c2.files_first { for (p, s, script) in &c2.files { if *script { g.add_script(p, s); } else { let _ = g.add_tmpl(p, s); } } }
